@@ -233,6 +233,34 @@ example :
     (∀ i ∈ [0, 1], 0 ≤ esInfra.minPilot.getD i 0 ∧ esInfra.minPilot.getD i 0 ≤ esInfra.maxPilot.getD i 0) := by
   decide +kernel
 
+def esL : List (Session ℚ) :=
+  [⟨"A", "x", 0, 0, 9, 9, 50, 0, 0, 1000⟩, ⟨"B", "y", 1, 1, 8, 8, 50, 0, 0, 1000⟩]
+
+/-- `pilot_le_evse_max_any_estimator` instantiated on this instance: for EVERY estimator function
+    `est` (no condition at all) a schedule the greedy algorithm returns gives both stations at most
+    their EVSE's 32 A — all hypotheses of the theorem are discharged -/
+example (est : List (Session ℚ) → Session ℚ → Option ℚ) (sch : List ℚ)
+    (h : (scheduleCallEst esFeas (esCfg .greedy true) esInfra 5 3 est esRaw).result = .ok sch) :
+    ∀ j, j < 2 → ∃ r, sch[j]? = some r ∧ r ≤ 32 := by
+  have hres : resolve esInfra esRaw = .ok esL := by rfl
+  have hevse : ∀ i, 0 ≤ esInfra.minPilot.getD i 0 ∧
+      esInfra.minPilot.getD i 0 ≤ esInfra.maxPilot.getD i 0 := by
+    intro i
+    rcases i with _ | _ | i <;> simp [esInfra] <;> norm_num
+  have hmin : ∀ s ∈ esL, s.minRate ≤ 0 := by
+    intro s hs
+    simp only [esL, List.mem_cons, List.not_mem_nil, or_false] at hs
+    rcases hs with rfl | rfl <;> simp
+  have key := (pilot_le_evse_max_any_estimator esFeas (esCfg .greedy true) (by simp [esCfg]) esInfra 5 3
+    est esRaw esL sch hres rfl hevse hmin (by decide) h).2
+  intro j hj
+  obtain ⟨r, h1, h2⟩ := key j (by simpa [esInfra] using hj)
+  refine ⟨r, h1, le_trans h2 ?_⟩
+  rcases j with _ | _ | j
+  · simp [esInfra]
+  · simp [esInfra]
+  · omega
+
 /-- bounds ABOVE the EVSE maximum (100 A for `x`), a MISSING key (`y`) and a key of a session that is
     not active (`ghost`): both sessions get exactly the EVSE maximum 32 A — never more — from greedy
     and from round robin, although headroom (100 A) and remaining demand are far above 32 A -/
